@@ -196,3 +196,33 @@ theorem gk_maxAll_spec {cb : List Nat} (h : cb ≠ []) : ∃ mb, maxAll cb = .ok
     | succ i => exact h2 _ (List.getElem_mem _)
 
 end HC
+
+namespace HC
+open Ckks GenK
+
+theorem gk_satAdd_ge {mb total : Nat} (ht : total < 2^64) (h : mb + 1 ≥ total) : satAdd mb 1 ≥ total := by
+  unfold satAdd; rw [B64_eq]; split <;> omega
+
+/-- the GENERATED `encode_internal_c64_array` refuses ("Values are too large to encode") as soon as the scan over ALL
+    coefficients gives a bit count ≥ the total bit count -/
+theorem gk_c64_array_refuses {cb : List Nat} {mb total_bits slots nvalues : Nat} (hm : maxAll cb = .ok mb)
+    (ht : total_bits < 2^64) (h : mb + 1 ≥ total_bits) (hs : slots * 2 < 2^64) (hv : nvalues ≤ slots)
+    (moduli : List Modulus) (degree ntt_len : Nat) (rc : List Int) (decompose : List Nat → R (List Nat))
+    (nttP : List Nat → Nat → R (List Nat)) (dest : List Nat) :
+    encode_internal_c64_array true true nvalues slots true total_bits moduli degree ntt_len cb rc decompose nttP dest
+      = .error .refused := by
+  unfold encode_internal_c64_array
+  have h1 : ¬ nvalues > slots := by omega
+  simp only [not_true_eq_false, if_false, h1, gk_ckMul_ok hs, hm, bind, Except.bind, if_pos (gk_satAdd_ge ht h)]
+
+theorem gk_f64_polynomial_refuses {cb : List Nat} {mb total_bits slots nvalues : Nat} (hm : maxAll cb = .ok mb)
+    (ht : total_bits < 2^64) (h : mb + 1 ≥ total_bits) (hs : slots * 2 < 2^64) (hv : nvalues ≤ slots * 2)
+    (moduli : List Modulus) (degree ntt_len : Nat) (hd : degree * moduli.length < 2^64) (rc : List Int) (decompose : List Nat → R (List Nat))
+    (nttP : List Nat → Nat → R (List Nat)) (dest : List Nat) :
+    encode_internal_f64_polynomial true true nvalues slots true total_bits moduli degree ntt_len cb rc decompose nttP dest
+      = .error .refused := by
+  unfold encode_internal_f64_polynomial
+  have h1 : ¬ nvalues > slots * 2 := by omega
+  simp only [not_true_eq_false, if_false, h1, gk_ckMul_ok hs, gk_ckMul_ok hd, hm, bind, Except.bind, if_pos (gk_satAdd_ge ht h)]
+
+end HC
